@@ -46,8 +46,11 @@ THEOREMS = [
     'C03_rec12_inside',
     'C03_rec10_facet_k',
     'C03_rec10_inside',
+    'C03_rec12_solid',
+    'C03_rec10_solid',
     'C03_trc_facet_k',
     'C03_trc_inside',
+    'C03_trc_solid',
     'C03_ell_axis_facet_k',
     'C03_ell_axis_inside',
     'C03_ell_foci_facet_k',
